@@ -29,6 +29,8 @@ def run(ctx, db, tier):
     from . import C07, C02
     C07.unlock_once(ctx, db, 'C03.fifo-untouched-after-handover')
     C02.link_current(ctx, db, 'C03.chain-push-links-current-top')
+    # a thread that polls through has_value() / operator bool must learn "ready" through the acquire load before it reads the state tag
+    C01.has_value_agrees(ctx, db, 'C03.poller-acquires-before-reading')
     summ = publish.Summaries(db)
     publish.check_no_touch(ctx, db, 'C03.R2-no-touch-after-publish', summ, per_instance=per_inst, floor=12)
     la = locks.check_guarded(ctx, db, 'C03.R3-lock-discipline', GUARDED, GUARDED_CLASSES, per_instance=per_inst, floor=40)
